@@ -442,6 +442,31 @@ theorem compile_correct_fragment2 (req : Request) (es : Entities) (senv : SlotEn
   · rw [hev]; exact ⟨ty, rfl⟩
   · rw [hev]; exact Or.inr ⟨rfl, rfl⟩
 
+/-- `ctxTermOf` (the mirror of the `Record` arm of `Term::from_value`) never fails on, and yields a term satisfying
+    `CtxOK` for, EVERY flat context all of whose attributes are declared by the flat context type `attrs` and carry
+    primitive values (`FlatConforms`; implied by conformance of the request to the schema). -/
+theorem ctxTermOf_ctxOK (ctx : List (String × Value)) (attrs : List (Attr × CtxAttrTy × Bool))
+    (hconf : FlatConforms ctx attrs) : ∃ t, ctxTermOf ctx attrs = some t ∧ CtxOK ctx t := by
+  obtain ⟨t, ht, hrec, hfld, hno⟩ := ctxTermOf_spec ctx (fun a v h => (hconf a v h).1) attrs
+  refine ⟨t, ht, hrec, hfld, ?_⟩
+  intro a h
+  cases hl : lookupKV ctx a with
+  | none => rfl
+  | some v => exact absurd (hconf a v hl).2 (hno a h)
+
+/-- `compile_correct_fragment2` with the hypothesis about the context term DISCHARGED for conformant requests: the
+    context term is the one the symbolizer builds (`ctxTermOf`). -/
+theorem compile_correct_fragment2_conformant (req : Request) (es : Entities) (senv : SlotEnv)
+    (etys : List (EntityType × Option (List String))) (attrs : List (Attr × CtxAttrTy × Bool))
+    (hconf : FlatConforms req.context attrs) :
+    ∃ ctxT, ctxTermOf req.context attrs = some ctxT ∧
+      ∀ (e : Expr), SFrag2 e → ∀ t, compile (litEnv2 req etys ctxT) e = .ok t →
+        match evaluate req es senv e with
+        | .ok v => (∃ p, v = .prim p ∧ t = .some (.prim (litPrim p))) ∨ (v = .record req.context ∧ t = .some ctxT)
+        | .error _ => ∃ ty, t = .none ty := by
+  obtain ⟨ctxT, h, hok⟩ := ctxTermOf_ctxOK req.context attrs hconf
+  exact ⟨ctxT, h, fun e hf t hc => compile_correct_fragment2 req es senv etys ctxT (fun _ => hok) e hf t hc⟩
+
 /-- the first fragment (no `context`): corollary of `compile_correct_fragment2` on the context-less environment `litEnv`
     (its context slot is a non-record dummy, so no hypothesis about the context is needed).  Ill-typed inputs: see the
     examples below — a type error of `evaluate` shows up either as the compiler REJECTING (`.error .typeError`, excluded
@@ -651,6 +676,13 @@ example : CtxOK exReq2.context exCtxT := by
     have h1 : ¬ "m" = a := by intro e; subst e; simp [exCtxT, recFind?] at h
     have h2 : ¬ "n" = a := by intro e; subst e; simp [exCtxT, recFind?] at h
     simp [exReq2, lookupKV, h1, h2]
+example : FlatConforms exReq2.context [("m", .long, false), ("n", .long, true), ("s", .string, false)] := by
+  intro a v h
+  by_cases h1 : a = "m"
+  · subst h1; simp [exReq2, lookupKV] at h; subst h; exact ⟨⟨_, rfl, (by decide : inI64 5 = true)⟩, by simp⟩
+  · by_cases h2 : a = "n"
+    · subst h2; simp [exReq2, lookupKV] at h; subst h; exact ⟨⟨_, rfl, (by decide : inI64 1 = true)⟩, by simp⟩
+    · simp [exReq2, lookupKV, Ne.symm h1, Ne.symm h2] at h
 example : SFrag2 exCtxE := inFrag2_sound _ (by decide +kernel)
 example : compile (litEnv2 exReq2 exEtys exCtxT) exCtxE = .ok (.some (.prim (.bool true))) := by decide +kernel
 example : compile (litEnv2 exReq2 exEtys exCtxT) exCtxS = .ok (.none .bool) := by decide +kernel
